@@ -20,6 +20,7 @@ inductive Query
   | nowSeconds                                             -- int(time.time())
   | tokenBytes (k n : Nat)                                 -- k-th secrets.token_bytes(n) of this call
   | builtinPem (name : String)                             -- the PEM constant of known_root_certs.py
+  | pemCanon (pem : Bytes)                                 -- load_pem_x509_certificate(pem) re-serialised as PEM, if it loads
   deriving Repr
 
 def Answer : Query → Type
@@ -35,6 +36,7 @@ def Answer : Query → Type
   | .nowSeconds => Int
   | .tokenBytes _ _ => Bytes
   | .builtinPem _ => Bytes
+  | .pemCanon _ => Option Bytes
 
 abbrev World := (q : Query) → Answer q
 
@@ -51,6 +53,7 @@ def x509Load (der : Bytes) : Option CertView := W (.x509Load der)
 def chainVerify (leaf : Bytes) (inter : List Bytes) (roots : List Root) : ChainOutcome :=
   W (.chainVerify leaf inter roots)
 def builtinPem (name : String) : Bytes := W (.builtinPem name)
+def pemCanon (pem : Bytes) : Option Bytes := W (.pemCanon pem)
 def keyDescription (der : Bytes) : Option KeyDescView := W (.keyDescription der)
 def nowSeconds : Int := W .nowSeconds
 def tokenBytes (k n : Nat) : Bytes := W (.tokenBytes k n)
@@ -157,6 +160,7 @@ def x509LoadM (der : Bytes) : M (Option CertView) := askM (.x509Load der)
 def chainVerifyM (leaf : Bytes) (inter : List Bytes) (roots : List Root) : M ChainOutcome :=
   askM (.chainVerify leaf inter roots)
 def builtinPemM (name : String) : M Bytes := askM (.builtinPem name)
+def pemCanonM (pem : Bytes) : M (Option Bytes) := askM (.pemCanon pem)
 def keyDescriptionM (der : Bytes) : M (Option KeyDescView) := askM (.keyDescription der)
 def nowSecondsM : M Int := askM .nowSeconds
 def tokenBytesM (k n : Nat) : M Bytes := askM (.tokenBytes k n)
@@ -183,6 +187,8 @@ def tokenBytesM (k n : Nat) : M Bytes := askM (.tokenBytes k n)
     runM W (chainVerifyM l i r >>= f) = runM W (f (W.chainVerify l i r)) := runM_askM_bind W (.chainVerify l i r) f
 @[simp] theorem runM_builtinPemM_bind {β} (W : World) (n) (f : Bytes → M β) :
     runM W (builtinPemM n >>= f) = runM W (f (W.builtinPem n)) := runM_askM_bind W (.builtinPem n) f
+@[simp] theorem runM_pemCanonM_bind {β} (W : World) (p) (f : Option Bytes → M β) :
+    runM W (pemCanonM p >>= f) = runM W (f (W.pemCanon p)) := runM_askM_bind W (.pemCanon p) f
 @[simp] theorem runM_keyDescriptionM_bind {β} (W : World) (der) (f : Option KeyDescView → M β) :
     runM W (keyDescriptionM der >>= f) = runM W (f (W.keyDescription der)) :=
   runM_askM_bind W (.keyDescription der) f
